@@ -193,6 +193,9 @@ class Encoder:
     self.in_progress = set()
     self.fns: Dict[str, Any] = {}
     self.by_index: List[Any] = []  # object with number i
+    # tuples built from leaves only have no identity (CPython folds equal constant tuples of generated code
+    # into one object): when set, every occurrence of such a tuple becomes its own node
+    self.unshare_const_tuples = False
 
   # -- atoms
   def atom(self, v) -> Optional[str]:
@@ -242,6 +245,12 @@ class Encoder:
     return f"(KName {g_N(self.intern(k))})"
 
   def node(self, v) -> int:
+    if self.unshare_const_tuples and type(v) is tuple and common.own_internable(v):
+      term, kind = self._node_term(v)
+      self.nodes.append(term)
+      self.kinds.append(kind)
+      self.by_index.append(v)
+      return len(self.nodes) - 1
     if id(v) in self.ids:
       return self.ids[id(v)]
     if id(v) in self.in_progress:
@@ -289,6 +298,12 @@ class Encoder:
       if self.canonical:
         order = list(config_lib.ordered_arguments(v).keys())
         items.sort(key=lambda kv: order.index(kv[0]) if kv[0] in order else len(order))
+        if self.sort_dicts:
+          # **kwargs entries have no signature position: their storage order is not part of a configuration
+          named = {q[0] for q in sig_params(fn) if q[1] in ("PosOrKw", "KwOnly")}
+          head = [kv for kv in items if not isinstance(kv[0], str) or kv[0] in named]
+          extras = sorted((kv for kv in items if isinstance(kv[0], str) and kv[0] not in named), key=lambda kv: kv[0])
+          items = head + extras
       args = g_list([g_pair(self.skey(key), self.ref(val)) for key, val in items])
       tag_items = [(key, ts) for key, ts in v.__argument_tags__.items() if ts or not self.canonical]
       if self.canonical:
